@@ -285,7 +285,12 @@ def gen_ops(rng, exact: bool, depth: int, budget: list[int], declared: list[str]
                 declared.append(v.lower())
             body = gen_ops(rng, exact, depth - 1, budget, declared, p_raise, True)
             if k == 'repeat':
-                ops.append({'k': 'repeat', 'n': rng.choice([1, 2, 3, 5, 7, 0 if rng.random() < 0.15 else 4, -2 if rng.random() < 0.1 else 2]), 'body': body})
+                op = {'k': 'repeat', 'n': rng.choice([1, 2, 3, 5, 7, 0 if rng.random() < 0.15 else 4, -2 if rng.random() < 0.1 else 2]), 'body': body}
+                if rng.random() < 0.12:
+                    # a count that is not a whole number: the program repeats int(count) times (as FOR loops do), and so must the bookkeeping
+                    op['n_py'] = rng.choice([2.5, 3.7, 1.2, 4.999])
+                    op['n'] = int(op['n_py'])
+                ops.append(op)
             elif k == 'for':
                 v = rng.choice(declared) if declared and rng.random() < 0.9 else 'undeclared'
                 v = v.upper() if rng.random() < 0.3 else v
@@ -338,7 +343,7 @@ def run_ops(G, ops) -> None:
         elif k == 'home':
             G.set_home([None if v is None else float(core.unq(v)) for v in op['p']])
         elif k == 'repeat':
-            with G.repeat(op['n']):
+            with G.repeat(op.get('n_py', op['n'])):
                 run_ops(G, op['body'])
         elif k == 'for':
             with G.for_loop(op['v'], op['n']):
